@@ -160,7 +160,7 @@ def encodeMetadataRequest (clientId : Bytes) (corr : Int) (topics : List (Option
 def encodeConsumerMetadataRequest (clientId : Bytes) (corr : Int) (group : Option Bytes) : R Bytes :=
   match encodeHeader clientId corr hdrKey_encode_consumermetadata_request hdrVer_encode_consumermetadata_request with
   | .error e => .error e
-  | .ok hdr => match writeShortAscii group with
+  | .ok hdr => match writeShortText group with
     | .error e => .error e
     | .ok g => .ok (hdr ++ g)
 
@@ -181,11 +181,11 @@ def encodeOffsetCommitRequest (clientId : Bytes) (corr : Int) (group : Option By
   if payloadCount grouped ≠ payloads.length then .error .valueError else
   match encodeHeader clientId corr hdrKey_encode_offset_commit_request hdrVer_encode_offset_commit_request with
   | .error e => .error e
-  | .ok hdr => match writeShortAscii group with
+  | .ok hdr => match writeShortText group with
     | .error e => .error e
     | .ok g => match pack fmt_encode_offset_commit_request_0 [generationId] with
       | .error e => .error e
-      | .ok gen => match writeShortAscii consumerId with
+      | .ok gen => match writeShortText consumerId with
         | .error e => .error e
         | .ok cid => match pack fmt_encode_offset_commit_request_1 [grouped.length] with
           | .error e => .error e
@@ -205,7 +205,7 @@ def encodeOffsetFetchRequest (clientId : Bytes) (corr : Int) (group : Option Byt
   if payloadCount grouped ≠ payloads.length then .error .valueError else
   match encodeHeader clientId corr hdrKey_encode_offset_fetch_request hdrVer_encode_offset_fetch_request with
   | .error e => .error e
-  | .ok hdr => match writeShortAscii group with
+  | .ok hdr => match writeShortText group with
     | .error e => .error e
     | .ok g => match pack fmt_encode_offset_fetch_request_0 [grouped.length] with
       | .error e => .error e
